@@ -522,13 +522,18 @@ func TestC16Race(t *testing.T) {
 			}
 		}
 		g.addrs("t1.example", "t1", 1)
+		// a third name whose HTTPS lookup the upstream only ever fails: every Resolve of it, from
+		// whichever goroutine and however the lookups coincide, reports an error
+		failName := "rfail.example"
+		g.addrs(failName, "a_fail", 1)
+		z.RCode[dnsfx.Key(failName, 65)] = []int{2, 5}[rapid.IntRange(0, 1).Draw(t, "fail_rcode")]
 		ng := rapid.IntRange(2, 24).Draw(t, "goroutines")
 		runtime.GOMAXPROCS([]int{2, 4, 8, 16}[rapid.IntRange(0, 3).Draw(t, "gomaxprocs")])
 		iters := rapid.IntRange(2, 6).Draw(t, "iters")
 		plans := make([][]int, ng)
 		for i := range plans {
 			for j := 0; j < iters; j++ {
-				plans[i] = append(plans[i], rapid.IntRange(0, 7).Draw(t, "plan"))
+				plans[i] = append(plans[i], rapid.IntRange(0, 11).Draw(t, "plan"))
 			}
 		}
 		want := map[string]string{}
@@ -599,6 +604,17 @@ func TestC16Race(t *testing.T) {
 				go func(plan []int) {
 					defer wg.Done()
 					for _, p := range plan {
+						if p >= 8 {
+							ctx, cancel := context.WithTimeout(context.Background(), 30*time.Second)
+							res, err := r.Resolve(ctx, failName)
+							cancel()
+							if err == nil {
+								mu.Lock()
+								viol = fmt.Sprintf("Resolve(%s) = %+v, nil although the upstream only ever fails the HTTPS lookup", failName, res)
+								mu.Unlock()
+							}
+							continue
+						}
 						name := names[p&1]
 						nw := []string{"tcp", "tcp4"}[(p>>1)&1]
 						ctx, cancel := context.WithTimeout(context.Background(), 30*time.Second)
